@@ -4,15 +4,28 @@ Structured fuzzing of every message a client or server parses. A *case* is one s
   family "pre"   : the harness plays the peer with raw bytes on the link before NEWKEYS
                    (banner lines, KEXINIT, method-specific kex messages for every kex engine);
   family "post"  : an authenticated session with an open channel; a recording puppet peer
-                   sends grammar-built, then mutated, connection/transport messages;
+                   sends grammar-built, then mutated, connection/transport messages; on the client
+                   side an application call may be kept waiting meanwhile: open_session, or
+                   exec_command / invoke_shell / invoke_subsystem / get_pty / request_x11 on the
+                   open channel ("postc": only messages for that channel, mutations that prefer
+                   its text fields);
   family "authc" : tested client inside auth_none/password/publickey/interactive while a
                    raw-mode puppet server answers with mutated SERVICE_ACCEPT/USERAUTH_* messages;
+                   "authk": whole keyboard-interactive conversations - SERVICE_ACCEPT, 1-3
+                   INFO_REQUEST rounds (0-3 prompts, mutated, each sent when the client's request /
+                   previous INFO_RESPONSE arrived), final verdict - reached through auth_interactive,
+                   auth_interactive_dumb and auth_password's automatic fallback (the server's
+                   FAILURE list offers keyboard-interactive without password);
   family "auths" : tested server; raw-mode puppet client sends mutated SERVICE_REQUEST /
                    USERAUTH_REQUEST / INFO_RESPONSE and connection-layer messages before auth;
   family "wire"  : after NEWKEYS the ciphertext (every cipher class) or the compressed stream
                    from the peer is corrupted.
 Oracle: whatever start_client / start_server / the pending auth_* call raises, and whatever
-get_exception() returns afterwards, is an SSHException, EOFError or OSError - or nothing failed.
+get_exception() returns - afterwards to the harness, or meanwhile to paramiko's own callers: a
+blocked channel call re-raises and clears it, so the method is wrapped on the tested instance and
+every value it hands out is judged - is an SSHException, EOFError or OSError - or nothing failed.
+What a pending channel call raises beyond that is only counted (the statement names connect,
+start_client, start_server, the auth calls and get_exception).
 Bucket = exception class + innermost paramiko frame.  Hangs are "inconclusive", never violations.
 """
 import os
@@ -28,8 +41,14 @@ PROPERTY = "C38"
 LEVEL = "exploration"
 RULE = (
     "session scripts (family pre/post/authc/auths/wire x role x stage) with messages built from a per-type field grammar "
-    "and 0-3 mutations (field value replaced by boundary/random/invalid-UTF-8/huge-length values, field dropped/duplicated/"
-    "retyped, message truncated, trailing garbage, wrong stage/role); non-trivial = at least one mutated or out-of-stage "
+    "and 0-3 mutations (field value replaced by boundary/random/invalid-UTF-8/huge-length values, a string field - chosen among the "
+    "string fields only - made undecodable by replacing it or splicing one invalid byte into it, field dropped/duplicated/"
+    "retyped, message truncated, trailing garbage, wrong stage/role); post: optionally an application call (open_session, exec_command, "
+    "invoke_shell, invoke_subsystem, get_pty, request_x11) is blocked on the client while the messages arrive, and every value "
+    "get_exception() hands out - also to that call - is judged; postc: messages for the open channel only, text-preferring mutations; "
+    "authk: scripted keyboard-interactive conversations (1-3 INFO_REQUEST rounds x 0-3 prompts x text-preferring mutations x 6 endings) "
+    "through auth_interactive / auth_interactive_dumb / auth_password fallback (5 FAILURE method lists) x both transport classes; "
+    "loop-count fields are kept <= 65535 by the value mutation; non-trivial = at least one mutated or out-of-stage "
     "message was verifiably consumed by the tested side (it answered a later sentinel, reacted, or terminated); distinct by "
     "the exact byte script; plus 8 enumerated pre scripts: orderly peer DISCONNECT right after the banner / after its KEXINIT x role x "
     "blocking/event API (failure without a saved exception)"
@@ -39,6 +58,11 @@ SENT = b"verif-sentinel@verif"
 
 # ----------------------------------------------------------------------------- field grammar
 # field = (kind, value); kinds: b byte(int) | B bool(int 0..255) | u uint32 | q uint64 | s string(bytes) | m mpint | r raw bytes
+#         c uint32 that the receiver uses as a LOOP COUNT (EXT_INFO pairs, INFO_REQUEST prompts, INFO_RESPONSE answers): a "set"
+#         mutation keeps it <= COUNT_CAP, because the tree under test iterates that many times over the (exhausted) message on the
+#         transport thread - with 2^32-1 for hours, growing a list: a hang, recorded as inconclusive by this check and outside the
+#         statement's exception clause, that would starve every later case of the run (ctx.exclude key "loop-count-field-above-65535")
+COUNT_CAP = 0xFFFF
 
 
 def enc_field(k, v):
@@ -46,7 +70,7 @@ def enc_field(k, v):
         return bytes([v & 0xFF])
     if k == "B":
         return bytes([v & 0xFF])
-    if k == "u":
+    if k in ("u", "c"):
         return R.u32(v & 0xFFFFFFFF)
     if k == "q":
         return R.u64(v & 0xFFFFFFFFFFFFFFFF)
@@ -66,10 +90,11 @@ def enc(fields):
 
 
 INTS = [0, 1, 2, 3, 127, 128, 255, 256, 4095, 4096, 32767, 32768, 65535, 0x7FFFFFFF, 0x80000000, 0xFFFFFFFE, 0xFFFFFFFF, 0x00FFFFFF, 0x01000000]
+NONUTF8 = [b"\xff", b"\xff\xfe\xfd", b"\xc3\x28", b"\xed\xa0\x80", b"\xe2\x82", b"\xf8\x88\x80\x80\x80", b"\xc0\xaf", b"caf\xe9", b"\x80abc", b"abc\xbf"]
 BADSTR = [b"", b"\xff", b"\xff\xfe\xfd", b"\xc3\x28", b"\xed\xa0\x80", b"a\x00b", b",", b"a,,b", b"\xe2\x82", b"x" * 300, b"ssh-rsa", b"none", b"\x00\x00\x00\x07ssh-rsa"]
 
 mutation = st.tuples(
-    st.sampled_from(["set", "set", "set", "drop", "dup", "retype", "trunc", "append", "lenlie"]),
+    st.sampled_from(["set", "set", "set", "drop", "dup", "retype", "trunc", "append", "lenlie", "badtext", "badtext"]),
     st.integers(0, 40),  # field index (mod n)
     st.one_of(st.sampled_from(INTS), st.integers(0, 0xFFFFFFFF)),
     st.one_of(st.sampled_from(BADSTR), st.binary(max_size=64)),
@@ -92,6 +117,8 @@ def mutate(tbyte, fields, muts):
                 fields[i][1] = iv & 0xFF
             elif k in ("u", "q"):
                 fields[i][1] = iv
+            elif k == "c":
+                fields[i][1] = iv if iv <= COUNT_CAP else iv & COUNT_CAP
             elif k in ("s", "r"):
                 fields[i][1] = bv
             elif k == "m":
@@ -102,7 +129,7 @@ def mutate(tbyte, fields, muts):
             fields.insert(i, list(fields[i]))
         elif op == "retype":
             k, v = fields[i]
-            if k in ("u", "b", "B", "q"):
+            if k in ("u", "b", "B", "q", "c"):
                 fields[i] = ["s", R.u32(v & 0xFFFFFFFF)] if idx % 2 else ["m", v]
             elif k == "s":
                 fields[i] = ["u", len(v)] if idx % 2 else ["r", v]
@@ -116,6 +143,17 @@ def mutate(tbyte, fields, muts):
             k, v = fields[i]
             if k == "s":
                 fields[i] = ["L", (iv, v)]
+        elif op == "badtext":
+            sidx = [j for j, f in enumerate(fields) if f[0] == "s"]
+            if sidx:
+                j = sidx[idx % len(sidx)]
+                v = bytes(fields[j][1])
+                bad = NONUTF8[iv % len(NONUTF8)]
+                if (iv >> 4) % 2 and v:
+                    cut = (iv >> 5) % (len(v) + 1)
+                    fields[j][1] = v[:cut] + [b"\xff", b"\x80", b"\xc0", b"\xfe"][(iv >> 12) % 4] + v[cut:]
+                else:
+                    fields[j][1] = bad
     body = enc([tuple(f) for f in fields]) + tail
     if trunc is not None and body:
         body = body[: trunc % (len(body) + 1)]
@@ -211,7 +249,7 @@ def post_templates(role, cid):
         (4, [("B", 1), ("s", b"debug message"), ("s", b"en")]),
         (3, [("u", 5)]),
         (2, [("s", b"ignored")]),
-        (7, [("u", 1), ("s", b"server-sig-algs"), ("s", b"rsa-sha2-512,ssh-ed25519")]),
+        (7, [("c", 1), ("s", b"server-sig-algs"), ("s", b"rsa-sha2-512,ssh-ed25519")]),
         (80, [("s", b"keepalive@openssh.com"), ("B", 1)]),
         (80, [("s", b"tcpip-forward"), ("B", 1), ("s", b"127.0.0.1"), ("u", 0)]),
         (80, [("s", b"cancel-tcpip-forward"), ("B", 1), ("s", b"127.0.0.1"), ("u", 2222)]),
@@ -246,8 +284,8 @@ def post_templates(role, cid):
         (51, [("s", b"password,publickey"), ("B", 0)]),
         (52, []),
         (53, [("s", b"banner"), ("s", b"en")]),
-        (60, [("s", b"name"), ("s", b"instr"), ("s", b""), ("u", 1), ("s", b"Password: "), ("B", 0)]),
-        (61, [("u", 1), ("s", b"resp")]),
+        (60, [("s", b"name"), ("s", b"instr"), ("s", b""), ("c", 1), ("s", b"Password: "), ("B", 0)]),
+        (61, [("c", 1), ("s", b"resp")]),
         (50, [("s", b"u"), ("s", b"ssh-connection"), ("s", b"password"), ("B", 0), ("s", b"pw")]),
         (5, [("s", b"ssh-userauth")]),
         (6, [("s", b"ssh-userauth")]),
@@ -267,12 +305,52 @@ def authc_templates():
         (52, []),
         (53, [("s", b"banner text"), ("s", b"en")]),
         (60, [("s", b"ssh-ed25519"), ("s", _blob("ed25519"))]),
-        (60, [("s", b"name"), ("s", b"instructions"), ("s", b""), ("u", 2), ("s", b"Password: "), ("B", 0), ("s", b"Code: "), ("B", 1)]),
-        (7, [("u", 1), ("s", b"server-sig-algs"), ("s", b"rsa-sha2-512,rsa-sha2-256,ssh-ed25519")]),
-        (61, [("u", 1), ("s", b"x")]),
+        (60, [("s", b"name"), ("s", b"instructions"), ("s", b""), ("c", 2), ("s", b"Password: "), ("B", 0), ("s", b"Code: "), ("B", 1)]),
+        (7, [("c", 1), ("s", b"server-sig-algs"), ("s", b"rsa-sha2-512,rsa-sha2-256,ssh-ed25519")]),
+        (61, [("c", 1), ("s", b"x")]),
         (63, [("s", b"tok")]),
         (80, [("s", b"hostkeys-00@openssh.com"), ("B", 0), ("s", _blob("ed25519"))]),
     ]
+
+
+def info_request_fields(nprompts):
+    """USERAUTH_INFO_REQUEST (RFC 4256): name, instruction, language tag, count, (prompt, echo)*."""
+    f = [("s", b"Two-factor"), ("s", b"Enter your codes"), ("s", b"en"), ("c", nprompts)]
+    for i in range(nprompts):
+        f += [("s", b"Prompt %d: " % i), ("B", i % 2)]
+    return f
+
+
+KBD_FAILURE_LISTS = [b"keyboard-interactive", b"keyboard-interactive,publickey", b"publickey,keyboard-interactive", b"password,keyboard-interactive", b"publickey"]
+KBD_FINALS = ["success", "failure", "partial", "silence", "disconnect", "another-request"]
+
+
+def build_kbd_script(method, rounds, final, flist, service_transport=False):
+    """A keyboard-interactive conversation as the puppet server plays it: SERVICE_ACCEPT; for the password fallback
+    first the FAILURE whose method list makes the client fall back; one INFO_REQUEST per round (sent when the client's
+    request / previous INFO_RESPONSE has arrived); then the final verdict. rounds = [(nprompts, mutations)]."""
+    msgs = [(5, bytes([6]) + R.string(b"ssh-userauth"))]
+    n50 = 1
+    if method == "password-fallback":
+        msgs.append(([50, 1], bytes([51]) + R.string(KBD_FAILURE_LISTS[flist % len(KBD_FAILURE_LISTS)]) + R.boolean(False)))
+        n50 = 2
+        if not service_transport:
+            # the classic Transport requests the service anew for the fallback attempt
+            msgs.append(([5, 2], bytes([6]) + R.string(b"ssh-userauth")))
+    for j, (nprompts, m) in enumerate(rounds):
+        msgs.append(([50, n50] if j == 0 else [61, j], mutate(60, info_request_fields(nprompts), m)))
+    after = [61, len(rounds)] if rounds else [50, n50]
+    if final == "success":
+        msgs.append((after, bytes([52])))
+    elif final == "failure":
+        msgs.append((after, bytes([51]) + R.string(b"password,keyboard-interactive") + R.boolean(False)))
+    elif final == "partial":
+        msgs.append((after, bytes([51]) + R.string(b"publickey") + R.boolean(True)))
+    elif final == "disconnect":
+        msgs.append((after, peers.m_disconnect(2, b"too many \xff tries")))
+    elif final == "another-request":
+        msgs.append((after, mutate(60, info_request_fields(1), [])))
+    return msgs
 
 
 def bad_blobs():
@@ -319,8 +397,8 @@ def auths_templates():
         (50, [U, S, ("s", b"gssapi-with-mic"), ("u", 1), ("s", b"\x06\x09\x2a\x86\x48\x86\xf7\x12\x01\x02\x02")]),
         (50, [U, S, ("s", b"gssapi-keyex"), ("s", b"mic")]),
         (50, [U, S, ("s", b"hostbased"), ("s", b"ssh-rsa"), ("s", rsa), ("s", b"host"), ("s", b"u"), ("s", b"sig")]),
-        (61, [("u", 1), ("s", b"response")]),
-        (61, [("u", 0)]),
+        (61, [("c", 1), ("s", b"response")]),
+        (61, [("c", 0)]),
     ]
     # structurally valid requests whose key blob is degenerate inside (right type tag, bad numbers/lengths/points)
     for alg, blob in bad_blobs():
@@ -369,6 +447,24 @@ def judge(ctx, case, clause, exc):
     return True
 
 
+def wait_log(puppet, pred, timeout):
+    """Puppet.wait_log with a fine poll: the END of the tested transport (part of most predicates here) is not a log event,
+    so nothing wakes the waiter up for it - with the puppet's own 0.25 s poll every session that dies costs a quarter second."""
+    import time
+
+    end = time.time() + timeout
+    pz = puppet.packetizer
+    with pz.log_cv:
+        while True:
+            v = pred(pz.log)
+            if v:
+                return v
+            left = end - time.time()
+            if left <= 0:
+                return v
+            pz.log_cv.wait(min(left, 0.01))
+
+
 def wait_sentinel_or_death(puppet, tested, seen, timeout=2.0):
     """After the puppet sent a sentinel GLOBAL_REQUEST: 'reply' / 'dead' / None (hang)."""
 
@@ -379,15 +475,46 @@ def wait_sentinel_or_death(puppet, tested, seen, timeout=2.0):
             return "dead"
         return None
 
-    return puppet.wait_log(got, timeout)
+    return wait_log(puppet, got, timeout)
 
 
 # ----------------------------------------------------------------------------- families
 
 
-def run_post(ctx, role, msgs, pending_open, record=True):
-    """msgs: list of payload bytes (already mutated)."""
-    case = {"family": "post", "role": role, "msgs": msgs, "pending_open": pending_open}
+def watch_get_exception(t):
+    """Public-API observation point: every value Transport.get_exception() hands out - to the harness or to paramiko's own
+    callers (a blocked Channel call or open_session re-raises what it returns, and thereby clears it) - is recorded."""
+    seen = []
+    orig = t.get_exception
+
+    def get_exception():
+        e = orig()
+        if e is not None:
+            seen.append(e)
+        return e
+
+    t.get_exception = get_exception
+    return seen
+
+
+# application calls that block on the channel until the peer answers (or the session ends)
+PENDING_CALLS = {
+    "exec_command": lambda ch: ch.exec_command("ls"),
+    "invoke_shell": lambda ch: ch.invoke_shell(),
+    "invoke_subsystem": lambda ch: ch.invoke_subsystem("sftp"),
+    "get_pty": lambda ch: ch.get_pty(),
+    "request_x11": lambda ch: ch.request_x11(handler=lambda *a: None),
+}
+
+
+def run_post(ctx, role, msgs, pending_open, record=True, pending=None):
+    """msgs: list of payload bytes (already mutated). pending (client role): name of an application call that is kept
+    waiting while the messages arrive - "open_session" (older cases: pending_open=True) or one of PENDING_CALLS on the
+    open channel. Such a call re-raises (and clears) what get_exception() returns: every value get_exception() hands out
+    is judged, whoever asked; what the pending call raised beyond that is only counted."""
+    if pending is None and pending_open:
+        pending = "open_session"
+    case = {"family": "post", "role": role, "msgs": msgs, "pending_open": pending_open, "pending": pending}
     if role == "client":
         link, tc, ts, srv = peers.connected_pair(client_cls=peers.VTransport, server_cls=peers.Puppet)
         tested, puppet = tc, ts
@@ -397,13 +524,28 @@ def run_post(ctx, role, msgs, pending_open, record=True):
         tested, puppet = ts, tc
     consumed = 0
     th = None
+    res = {}
+    classes = ["post:" + role]
     try:
         chan = tc.open_session(timeout=10)
+        seen_exc = watch_get_exception(tested)
         puppet.raw()
-        if pending_open and role == "client":
-            th = threading.Thread(target=lambda: _quiet(lambda: tested.open_session(timeout=3)), daemon=True)
+        if pending and role == "client":
+            if pending == "open_session":
+                call, wanted = (lambda: tested.open_session(timeout=3)), 90
+            else:
+                call, wanted = (lambda: PENDING_CALLS[pending](chan)), 98
+
+            def pending_call():
+                try:
+                    res["r"] = call()
+                except BaseException as e:
+                    res["e"] = e
+
+            th = threading.Thread(target=pending_call, daemon=True)
             th.start()
-            puppet.wait_log(lambda lg: any(e[1] == 90 for e in lg) or None, 5)
+            wait_log(puppet, lambda lg: any(e[1] == wanted for e in lg) or None, 5)
+            classes.append("pending-call:" + pending)
         for p in msgs:
             seen = len(puppet.log)
             try:
@@ -418,11 +560,18 @@ def run_post(ctx, role, msgs, pending_open, record=True):
             consumed += 1
             if r == "dead":
                 break
-        if record:
-            ctx.case(case, consumed > 0, ["post:" + role] + ["type:%d" % p[0] for p in msgs[: max(consumed, 1)]])
+        ok = True
         if not tested.is_active():
-            return judge(ctx, case, "get_exception", tested.get_exception())
-        return True
+            if th is not None:
+                th.join(5)  # the session ended: the pending call comes back with what get_exception() gave it
+            tested.get_exception()
+        if th is not None and ("e" in res or "r" in res):
+            classes.append("pending-call:%s:%s" % (pending, "returned" if "r" in res else "raised-what-get_exception-returned" if any(res["e"] is x for x in seen_exc) else "raised-own-exception"))
+        if record:
+            ctx.case(case, consumed > 0, classes + ["type:%d" % p[0] for p in msgs[: max(consumed, 1)]])
+        for e in list(seen_exc):
+            ok = judge(ctx, case, "get_exception", e) and ok
+        return ok
     finally:
         peers.shutdown(tested, puppet)
         if th is not None:
@@ -436,9 +585,18 @@ def _quiet(fn):
         return e
 
 
-def run_authc(ctx, method, msgs, record=True, early=(), service_transport=False):
-    """Tested client inside an auth_* call; msgs: [(after, payload)] where after is 5 or 50:
-    the puppet server sends payload once it has seen a message of that type."""
+def _seen_count(lg, after):
+    """after = message type (at least one seen) or [type, n] (at least n seen)."""
+    t, n = (after, 1) if isinstance(after, int) else (after[0], after[1])
+    return sum(1 for e in lg if e[1] == t) >= n
+
+
+def run_authc(ctx, method, msgs, record=True, early=(), service_transport=False, classes=()):
+    """Tested client inside an auth_* call; msgs: [(after, payload)] where after is a message type (5, 50, 61) or
+    [type, n]: the puppet server sends payload once it has seen a (the n-th) message of that type from the client -
+    which is how multi-round exchanges are scripted (INFO_REQUEST after the 1st USERAUTH_REQUEST, the next one after the
+    1st INFO_RESPONSE, ...). Methods: none / password (fallback to keyboard-interactive allowed for odd script lengths) /
+    password-fallback (always allowed) / publickey / publickey-rsa / interactive / interactive-dumb."""
     case = {"family": "authc", "method": method, "msgs": msgs, "early": list(early), "service_transport": service_transport}
     link, tc, ts = peers.make_pair(client_cls=peers.VServiceTransport if service_transport else peers.VTransport, server_cls=peers.Puppet)
     ce, se = peers.start_both(tc, ts, peers.OpenServer())
@@ -467,6 +625,21 @@ def run_authc(ctx, method, msgs, record=True, early=(), service_transport=False)
                     res["r"] = tc.auth_none("u")
                 elif method == "password":
                     res["r"] = tc.auth_password("u", "pw", fallback=bool(len(msgs) % 2))
+                elif method == "password-fallback":
+                    res["r"] = tc.auth_password("u", "pw", fallback=True)
+                elif method == "interactive-dumb":
+                    # the documented convenience handler prints the prompts and reads the answers from stdin
+                    import contextlib
+                    import io
+                    import sys
+
+                    old_in = sys.stdin
+                    sys.stdin = io.StringIO("x\n" * 64)
+                    try:
+                        with contextlib.redirect_stdout(io.StringIO()):
+                            res["r"] = tc.auth_interactive_dumb("u")
+                    finally:
+                        sys.stdin = old_in
                 elif method == "publickey":
                     res["r"] = tc.auth_publickey("u", pool["ed25519"])
                 elif method == "publickey-rsa":
@@ -480,7 +653,7 @@ def run_authc(ctx, method, msgs, record=True, early=(), service_transport=False)
         th.start()
         consumed = 0
         for after, p in msgs:
-            ok = ts.wait_log(lambda lg: any(e[1] == after for e in lg) or (not tc.is_active()) or ("r" in res or "e" in res) or None, 1.5)
+            ok = wait_log(ts, lambda lg: _seen_count(lg, after) or (not tc.is_active()) or ("r" in res or "e" in res) or None, 1.5)
             if not ok:
                 break
             try:
@@ -502,7 +675,9 @@ def run_authc(ctx, method, msgs, record=True, early=(), service_transport=False)
         if th.is_alive():
             ctx.inconc("authc:call-did-not-return")
         if record:
-            ctx.case(case, consumed > 0, ["authc:" + method] + ["type:%d" % p[0] for _, p in msgs[: max(consumed, 1)]])
+            rounds = sum(1 for e in ts.log if e[1] == 61)
+            extra = ["authc:info-responses-sent-by-client:%d" % min(rounds, 3)] if rounds else []
+            ctx.case(case, consumed > 0, ["authc:" + method] + list(classes) + extra + ["type:%d" % p[0] for _, p in msgs[: max(consumed, 1)]])
         ok = True
         if "e" in res:
             ok = judge(ctx, case, "auth-call-raises", res["e"]) and ok
@@ -681,6 +856,10 @@ def run_wire(ctx, role, cipher, mac, comp, how, offset, mask, record=True):
 # ----------------------------------------------------------------------------- strategies
 
 muts = st.lists(mutation, min_size=0, max_size=3)
+# "badtext": one STRING field (chosen among the string fields only) gets bytes that are not valid UTF-8 - either a value of NONUTF8
+# or the original value with one invalid byte spliced in, so that the rest of the message keeps its meaning
+text_mutation = st.tuples(st.just("badtext"), st.integers(0, 40), st.integers(0, 0xFFFF), st.binary(max_size=4), st.just(0))
+text_muts = st.lists(st.one_of(text_mutation, text_mutation.map(lambda m: m), mutation), min_size=0, max_size=2)
 
 
 def _msgs_from(templates, max_msgs=3):
@@ -750,10 +929,13 @@ def build_pre(c):
 def run(ctx):
     ctx.set_budget(75, 700)
     ctx.assume("a 2 s silence after a probe is recorded as inconclusive (hang), never as a violation")
+    ctx.exclude("loop-count-field-above-65535 (EXT_INFO pairs, INFO_REQUEST prompts, INFO_RESPONSE answers): the value mutation keeps these <= 65535; larger counts make the receiving transport thread iterate for minutes to hours - a hang, i.e. inconclusive here - and starve the rest of the run", 0)
 
     post_c = post_templates("client", 0)
     post_s = post_templates("server", 0)
     authc_t = authc_templates()
+    # the messages addressed to the open channel (requests of every kind, SUCCESS / FAILURE, data, window, EOF, CLOSE, open confirmations)
+    chan_t = [(t, f) for t, f in post_c if 91 <= t <= 100 and f and f[0] == ("u", 0)]
     auths_t = auths_templates()
 
     def body_pre(c):
@@ -764,7 +946,16 @@ def run(ctx):
         role, ms, pending = c
         T = post_c if role == "client" else post_s
         msgs = [mutate(T[i][0], T[i][1], m) for i, m in ms]
-        run_post(ctx, role, msgs, pending)
+        if role != "client":
+            pending = None
+        run_post(ctx, role, msgs, pending == "open_session", pending=pending)
+
+    def body_postc(c):
+        role, ms, pending = c
+        msgs = [mutate(chan_t[i][0], chan_t[i][1], m) for i, m in ms]
+        if role != "client":
+            pending = None
+        run_post(ctx, role, msgs, False, pending=pending)
 
     def body_authc(c):
         method, ms, accept_first, early, service_tr = c
@@ -776,6 +967,14 @@ def run(ctx):
             # without a SERVICE_ACCEPT the client never sends its USERAUTH_REQUEST: deliver while it waits (wrong stage)
             msgs.append((50 if accept_first else 5, mutate(t, f, m)))
         run_authc(ctx, method, msgs, early=[ext_info_payload(*e) for e in early], service_transport=service_tr)
+
+    def body_authk(c):
+        method, rounds, final, flist, service_tr = c
+        nmut = sum(1 for _, m in rounds if m)
+        cls = ["authc:kbd-exchange:rounds=%d" % len(rounds), "authc:kbd-exchange:mutated-rounds=%d" % nmut, "authc:kbd-exchange:final=" + final]
+        if method == "password-fallback":
+            cls.append("authc:password-fallback:failure-list=" + KBD_FAILURE_LISTS[flist % len(KBD_FAILURE_LISTS)].decode())
+        run_authc(ctx, method, build_kbd_script(method, rounds, final, flist, service_tr), service_transport=service_tr, classes=cls)
 
     def body_auths(c):
         policy, ms, svc_first = c
@@ -790,10 +989,17 @@ def run(ctx):
         comp = how == "zlib"
         run_wire(ctx, role, cipher, mac, comp, how, off, mask)
 
-    bodies = {"pre": body_pre, "post": body_post, "authc": body_authc, "auths": body_auths, "wire": body_wire}
+    bodies = {"pre": body_pre, "post": body_post, "postc": body_postc, "authc": body_authc, "authk": body_authk, "auths": body_auths, "wire": body_wire}
     strategies = {
         "pre": pre_case(),
-        "post": st.tuples(st.sampled_from(["client", "server"]), _msgs_from(post_c, 3), st.booleans()),
+        "post": st.tuples(st.sampled_from(["client", "server"]), _msgs_from(post_c, 3), st.sampled_from([None, None, "open_session"] + sorted(PENDING_CALLS))),
+        # channel-centred: only messages for the open channel, mutations that prefer the text fields, and (client) an application
+        # call blocked on that channel most of the time
+        "postc": st.tuples(
+            st.sampled_from(["client", "server"]),
+            st.lists(st.tuples(st.integers(0, len(chan_t) - 1), text_muts), min_size=1, max_size=3),
+            st.sampled_from([None] + sorted(PENDING_CALLS) * 2),
+        ),
         "authc": st.tuples(
             st.sampled_from(["none", "password", "publickey", "publickey-rsa", "publickey-rsa", "publickey-rsa", "interactive"]),
             _msgs_from(authc_t, 2),
@@ -803,6 +1009,15 @@ def run(ctx):
                 st.lists(st.tuples(st.sampled_from(EXT_NAMES), st.one_of(st.sampled_from(BADSTR), st.sampled_from(EXT_VALUES)), st.integers(0, 3)), min_size=1, max_size=2),
                 st.lists(st.tuples(st.sampled_from(EXT_NAMES), st.sampled_from([b"\xff", b"\xff\xfe\xfd", b"rsa-sha2-512,\xc3\x28", b"\xed\xa0\x80"]), st.integers(0, 1)), min_size=1, max_size=1),
             ),
+            st.booleans(),
+        ),
+        # whole keyboard-interactive conversations (1-3 rounds, each INFO_REQUEST with 0-3 prompts and 0-2 mutations that prefer the
+        # text fields), reached through every API that ends up in one: auth_interactive, auth_interactive_dumb, auth_password's fallback
+        "authk": st.tuples(
+            st.sampled_from(["interactive", "interactive-dumb", "password-fallback"]),
+            st.lists(st.tuples(st.integers(0, 3), text_muts), min_size=1, max_size=3),
+            st.sampled_from(KBD_FINALS),
+            st.integers(0, len(KBD_FAILURE_LISTS) - 1),
             st.booleans(),
         ),
         "auths": st.tuples(st.sampled_from([0, 1, 2]), _msgs_from(auths_t, 3), st.booleans()),
@@ -827,13 +1042,30 @@ def run(ctx):
                     script.append(frame(peers.m_disconnect(11, b"bye")))
                     run_pre(ctx, role, script, blocking)
     # families are interleaved (one draw picks the family) so that a budget hit thins all of them evenly
-    weights = {"pre": 6, "post": 5, "authc": 4, "auths": 6, "wire": 2}
-    fams = [f for f in os.environ.get("C38_FAMILIES", "pre,post,authc,auths,wire").split(",") if f in bodies]  # diagnostics only
+    weights = {"pre": 6, "post": 4, "postc": 4, "authc": 3, "authk": 3, "auths": 6, "wire": 2}
+    fams = [f for f in os.environ.get("C38_FAMILIES", "pre,post,postc,authc,authk,auths,wire").split(",") if f in bodies]  # diagnostics only
     tagged = []
     for f in fams:
         # distinct strategy objects: hypothesis' one_of de-duplicates identical ones, so repetition by `* n` would not weight
         tagged += [strategies[f].map(lambda c, f=f: (f, c)) for _ in range(weights[f])]
-    ctx.explore(st.one_of(*tagged), lambda fc: bodies[fc[0]](fc[1]), ctx.scale(520, 9000), shrink=False, seed_offset=1)
+    import time as _time
+
+    spent = {}
+
+    def timed(fc):
+        t0 = _time.time()
+        try:
+            bodies[fc[0]](fc[1])
+        finally:
+            d = _time.time() - t0
+            a = spent.setdefault(fc[0], [0, 0.0])
+            a[0] += 1
+            a[1] += d
+            if d > float(os.environ.get("C38_SLOW") or 1e9):
+                print("SLOW %.1fs %s %r" % (d, fc[0], fc[1]))
+
+    ctx.explore(st.one_of(*tagged), timed, ctx.scale(760, 9000), shrink=False, seed_offset=1)
+    ctx.note("family_cases_and_seconds", {k: [v[0], round(v[1], 1)] for k, v in sorted(spent.items())})
 
 
 def replay(ctx, case):
@@ -841,7 +1073,7 @@ def replay(ctx, case):
     if fam == "pre":
         run_pre(ctx, case["role"], case["script"], case["blocking"], gex_pack=case.get("gex_pack", False))
     elif fam == "post":
-        run_post(ctx, case["role"], case["msgs"], case["pending_open"])
+        run_post(ctx, case["role"], case["msgs"], case["pending_open"], pending=case.get("pending"))
     elif fam == "authc":
         run_authc(ctx, case["method"], [(a, p) for a, p in case["msgs"]], early=case.get("early", ()), service_transport=case.get("service_transport", False))
     elif fam == "auths":
